@@ -122,8 +122,23 @@ def run_case(files, dirs=('src',), dry_run=False, is_user=False, symlinks=None, 
     return res
 
 
-def run_pair(files, dirs=('src',), is_user=False, symlinks=None):
-    """the same materialised tree: first --dry-run (with before/after snapshot), then a normal run"""
+STALE_TAIL = '\n[X-Stale]\nLeft=over from an older, longer generation\n[Install]\nWantedBy=stale.target\n'
+
+
+def make_stale(out):
+    """make every regular file in the output directory longer (an older generation of the same unit that was longer):
+    a run that follows must replace the files, not write over their beginning"""
+    if os.path.isdir(out):
+        for fn in os.listdir(out):
+            p = os.path.join(out, fn)
+            if os.path.isfile(p) and not os.path.islink(p):
+                with open(p, 'ab') as f:
+                    f.write(STALE_TAIL.encode() * 3)
+
+
+def run_pair(files, dirs=('src',), is_user=False, symlinks=None, stale=False):
+    """the same materialised tree: first --dry-run (with before/after snapshot), then a normal run
+    (stale: into an output directory that already holds longer files of the same names)"""
     base = fresh_dir()
     for d in dirs:
         os.makedirs(os.path.join(base, d), exist_ok=True)
@@ -136,6 +151,9 @@ def run_pair(files, dirs=('src',), is_user=False, symlinks=None):
     after = snapshot(base)
     d = dict(exit=rc, stdout=so, stderr=se, before=before, after=after)
     d['printed'], d['printed_order'] = split_dry_run(so)
+    if stale:
+        run_binary(u + ['--no-kmsg-log', out], dirs_env)
+        make_stale(out)
     rc, so, se = run_binary(u + ['--no-kmsg-log', out], dirs_env)
     n = dict(exit=rc, stdout=so, stderr=se, services={}, after=snapshot(base))
     if os.path.isdir(out):
